@@ -321,3 +321,253 @@ def path_conditions(ix, fn, node, env):
     elif els is not None and child is els:
       out.append((uncast(term(ix, cond, env)), False))
   return out
+
+
+# -- path enumeration over the statement structure (R7.7, R9.4) ---------------------
+#
+# A function body is executed symbolically: `if` conditions are split into path
+# alternatives (`&&`, `||`, `!`), a range-for binds its variable to "an element
+# of C", break / continue / return end a path.  The facts known on a path are
+# the (condition term, truth value) pairs of the branches taken.
+
+def subterms(t):
+  if isinstance(t, tuple):
+    yield t
+    for x in t:
+      yield from subterms(x)
+
+
+def subst(t, mapping):
+  """Simultaneous substitution of ("this",) (key "this") and of
+  ("var", name, id) leaves (key id)."""
+  if not isinstance(t, tuple) or not t:
+    return t
+  if t == ("this",):
+    return mapping.get("this", t)
+  if t[0] == "var" and len(t) == 3:
+    return mapping.get(t[2], t)
+  return tuple(subst(x, mapping) for x in t)
+
+
+def getter_field(ix, key):
+  """"Rec::field" when `key` names a getter `T f() const { return field_; }`."""
+  fn = ix.by_key.get(key) if isinstance(key, str) else None
+  if fn is None or fn.body is None or fn.params:
+    return None
+  body = [s for s in inner(fn.body) if s.get("kind") != "NullStmt"]
+  if len(body) != 1 or body[0].get("kind") != "ReturnStmt" or not inner(body[0]):
+    return None
+  t = uncast(term(ix, inner(body[0])[0]))
+  if isinstance(t, tuple) and t[0] == "field" and t[2] == ("this",):
+    return t[1]
+  return None
+
+
+def norm(ix, t, smart=False):
+  """Casts stripped, `*p` / `&x` dropped (pointer and pointee designate the
+  same object), const getters replaced by the field they return; with
+  `smart`, `p.get()` / `p->` / `*p` of a smart pointer designate p."""
+  t = uncast(t)
+  if not isinstance(t, tuple) or not t:
+    return t
+  if t[0] in ("*", "&") and len(t) == 2:
+    return norm(ix, t[1], smart)
+  if smart and t[0] == "opcall" and t[1] in ("operator->", "operator*") and len(t) == 3:
+    return norm(ix, t[2], smart)
+  if smart and t[0] == "mcall" and t[1] == "get" and len(t) == 3:
+    return norm(ix, t[2], smart)
+  if t[0] == "mcall" and len(t) == 3:
+    f = getter_field(ix, t[1])
+    if f:
+      return ("field", f, norm(ix, t[2], smart))
+  return tuple(norm(ix, x, smart) if isinstance(x, tuple) else x for x in t)
+
+
+def split(t, pol):
+  """Path alternatives on which `t` has truth value `pol`: a list of fact
+  lists [(term, truth value), ...]; `a != b` is recorded as `a == b` false."""
+  t = uncast(t)
+  if isinstance(t, tuple) and t:
+    if t[0] == "!" and len(t) == 2:
+      return split(t[1], not pol)
+    if t[0] in ("&&", "||") and len(t) == 3:
+      if (t[0] == "&&") == pol:      # both operands decide
+        return [a + b for a in split(t[1], pol) for b in split(t[2], pol)]
+      return split(t[1], pol) + [a + b for a in split(t[1], not pol)
+                                 for b in split(t[2], pol)]
+    if t[0] == "!=" and len(t) == 3:
+      return [[(("==", t[1], t[2]), not pol)]]
+    if t[0] == "opcall" and t[1] == "operator!=" and len(t) == 4:
+      return [[(("opcall", "operator==", t[2], t[3]), not pol)]]
+    if t[0] == "bool":
+      return [[]] if t[1] == pol else []
+  return [[(t, pol)]]
+
+
+def show(t):
+  """Readable rendering of a term (no decl ids: they differ from run to run)."""
+  if not isinstance(t, tuple) or not t:
+    return str(t)
+  if t == ("this",):
+    return "this"
+  if t[0] == "var" and len(t) == 3:
+    return str(t[1])
+  if t[0] == "field" and len(t) == 3:
+    return f"{show(t[2])}->{t[1].split('::')[-1]}"
+  if t[0] == "int":
+    return str(t[1])
+  if t[0] == "bool":
+    return "true" if t[1] else "false"
+  if t[0] == "mcall" and len(t) >= 3:
+    return (f"{show(t[2])}.{str(t[1]).split('(')[0].split('::')[-1]}"
+            f"({', '.join(show(x) for x in t[3:])})")
+  if t[0] in ("call", "opcall") and len(t) >= 2:
+    return (f"{str(t[1]).split('(')[0].replace('?::', '')}"
+            f"({', '.join(show(x) for x in t[2:])})")
+  if t[0] == "index" and len(t) == 3:
+    return f"{show(t[1])}[{show(t[2])}]"
+  if len(t) == 3 and isinstance(t[0], str):
+    return f"({show(t[1])} {t[0]} {show(t[2])})"
+  if len(t) == 2 and isinstance(t[0], str):
+    return f"{t[0]}{show(t[1])}"
+  return "(" + " ".join(show(x) for x in t) + ")"
+
+
+def show_facts(facts, elems=None):
+  out = [f"{'' if pol else 'not '}{show(t)}" for t, pol in facts]
+  if elems:
+    used = {x[2]: x[1] for t, _ in facts for x in subterms(t)
+            if x and x[0] == "var" and len(x) == 3 and x[2] in elems}
+    out += [f"{nm} ranges over {show(elems[i])}" for i, nm in sorted(used.items())]
+  return out
+
+
+class Paths:
+  """Symbolic execution of one function body.
+
+  exits:  (kind "return"/"end", node, facts, closed, value term or None)
+  visits: (call node, facts, closed) for every call node accepted by `watch`
+  elems:  range-for variable id -> term of the container it ranges over
+  `closes(event)` marks the call events after which a path counts as closed;
+  `mapping` substitutes this / parameters (a helper seen from its caller)."""
+
+  def __init__(self, ix, fn, closes=None, mapping=None, watch=None, smart=False):
+    from sa.core import AnalysisError
+    self._err = AnalysisError
+    self.ix, self.fn = ix, fn
+    self.closes = closes or (lambda ev: False)
+    self.watch = watch
+    self.smart = smart
+    self.mapping = mapping or {}
+    self.env = once_bound_env(ix, fn)
+    self.written = written_vars(fn.body) if fn.body is not None else set()
+    self.exits = []
+    self.visits = []
+    self.elems = {}
+    out = self._block(stmts(fn.body), [((), False)], None)
+    for facts, closed in out:
+      self.exits.append(("end", fn.node, facts, closed, None))
+
+  def t(self, e):
+    return norm(self.ix, subst(term(self.ix, e, self.env), self.mapping), self.smart)
+
+  def _closing(self, s):
+    for ev in cxx.events(self.ix, s, {}):
+      if ev.kind == "call" and not ev.cond and self.closes(ev):
+        return True
+    return False
+
+  def _watch(self, s, states):
+    if self.watch is None:
+      return
+    for n in cxx.walk(s):
+      if n.get("kind") in ("CXXMemberCallExpr", "CallExpr", "CXXOperatorCallExpr") \
+          and self.watch(n):
+        for facts, closed in states:
+          self.visits.append((n, facts, closed))
+
+  def _block(self, sts, states, loop):
+    for s in sts:
+      if not states:
+        break
+      states = self._stmt(s, states, loop)
+    return states
+
+  def _stmt(self, s, states, loop):
+    k = s.get("kind")
+    q = self.fn.qual
+    if k is None or k == "NullStmt":
+      return states
+    if k == "CompoundStmt":
+      return self._block(inner(s), states, loop)
+    if k == "ReturnStmt":
+      v = return_value(s)
+      vt = self.t(v) if v is not None else None
+      closing = v is not None and self._closing(v)
+      if v is not None:
+        self._watch(v, states)
+      for facts, closed in states:
+        self.exits.append(("return", s, facts, closed or closing, vt))
+      return []
+    if k == "BreakStmt":
+      if loop is None:
+        raise self._err(f"{q}: break outside a loop")
+      loop["breaks"].extend(states)
+      return []
+    if k == "ContinueStmt":
+      return []
+    if k == "IfStmt":
+      init, var, cond, then, els = if_parts(s)
+      if init is not None or var is not None:
+        raise self._err(f"{q}: if-with-initialiser at line {line(s)} not modelled")
+      closing = self._closing(cond)
+      self._watch(cond, states)
+      ct = self.t(cond)
+      out = []
+      for pol, branch in ((True, then), (False, els)):
+        alts = split(ct, pol)
+        sts = [(facts + tuple(a), closed or closing) for facts, closed in states for a in alts]
+        out += self._block(stmts(branch), sts, loop) if branch is not None else sts
+      return out
+    if k in ("CXXForRangeStmt", "ForStmt", "WhileStmt", "DoStmt"):
+      body = inner(s)[0] if k == "DoStmt" else inner(s)[-1]
+      if k == "CXXForRangeStmt":
+        lv, rng, _ = range_for(s)
+        if rng is None:
+          raise self._err(f"{q}: range-for without a range")
+        self.elems[lv["id"]] = self.t(rng)
+      if any(self._closing(c) for c in inner(s) if c.get("kind")):
+        raise self._err(f"{q}: a closing call inside a loop (line {line(s)}); "
+                        "idiom not understood")
+      frame = {"breaks": []}
+      self._block(stmts(body), list(states), frame)
+      # zero iterations / all iterations completed: nothing learnt
+      return list(states) + frame["breaks"]
+    if k in ("SwitchStmt", "CXXTryStmt", "GotoStmt", "LabelStmt"):
+      if any(x.get("kind") in ("ReturnStmt", "BreakStmt", "ContinueStmt", "GotoStmt")
+             for x in cxx.walk(s)) or self._closing(s):
+        raise self._err(f"{q}: {k} at line {line(s)} not modelled")
+      self._watch(s, states)
+      return states
+    # declaration / expression statement
+    self._watch(s, states)
+    if self._closing(s):
+      return [(facts, True) for facts, _ in states]
+    return states
+
+
+def opaque_fact(paths, fact):
+  """Why the fact cannot be interpreted (a local assigned more than once, an
+  expression clang's AST does not resolve), else None."""
+  t, _ = fact
+  for x in subterms(t):
+    if not x:
+      continue
+    if x[0] == "var" and len(x) == 3 and x[2] in paths.written and x[2] not in paths.elems:
+      return f"local `{x[1]}` is assigned more than once (a flag)"
+    if x[0] == "?":
+      return f"expression of kind {x[1]}"
+    if x[0] == "call" and str(x[1]).startswith("?::") and \
+        not str(x[1]).endswith(("::find", "::count")):
+      return f"call of {x[1]}"
+  return None
